@@ -80,6 +80,9 @@ func runC07(p *Prog, r *Report) {
 	if want("C07.7") {
 		ruleFileNumRecycling(p, r, "C07.7")
 	}
+	if want("C07.14") {
+		ruleReuseFileNum(p, r, "C07.14")
+	}
 	if want("C07.13") {
 		ruleFileNameTables(p, r, "C07.13")
 	}
